@@ -110,7 +110,19 @@ fn process_request_obj(request: &Request, dbs: &Arc<Databases>, client: &mut Cli
             &dbs,
             &client,
             &key,
-            &|_db| remove_key(&key, _db),
+            &|_db| {
+                let respose = remove_key(&key, _db);
+                if !dbs.is_primary() {
+                    // Like a set, a remove done on a secondary has to reach the primary, otherwise
+                    // the key stays alive on every other node for ever
+                    let db_name_state = _db.name.clone();
+                    send_message_to_primary(
+                        get_replicate_remove_message(db_name_state.to_string(), key.clone()),
+                        dbs,
+                    );
+                }
+                respose
+            },
             PermissionKind::Remove,
         ),
 
